@@ -51,9 +51,9 @@ func (prop) ID() string { return "C03" }
 
 func (prop) Plan(tier string) []core.Phase {
 	if tier == "thorough" {
-		return []core.Phase{{Name: "enum", Runs: 60000}, {Name: "random", Runs: 4000000}}
+		return []core.Phase{{Name: "enum", Runs: 2000000}, {Name: "random", Runs: 60000000}}
 	}
-	return []core.Phase{{Name: "enum", Runs: 1200}, {Name: "random", Runs: 60000}}
+	return []core.Phase{{Name: "enum", Runs: 40000}, {Name: "random", Runs: 1500000}}
 }
 
 func (prop) Describe() core.Description {
